@@ -49,4 +49,5 @@ def run(prog: Program, col: Collector, tier: str, refs: Optional[Refs] = None, c
     algebra.r_unit_elimination(prog, col, refs, cat, "R01.6")
     algebra.r_inverse_rules(prog, col, refs, cat, "R01.7")
     algebra.r_pushdown(prog, col, refs, cat, "R01.8")
+    algebra.r_number_tensor_siblings(prog, col, refs, cat, "R01.9")
     return col
